@@ -50,4 +50,30 @@ PROPS = {
         ],
         "partial": ["C15.refines_rfc_full (model = RFC decoder for all strings/programs) is stated but not yet proved; it is validated exhaustively for strings of length <= 2 (quick) / <= 3 (thorough) and randomly beyond"],
     },
+    "C06": {
+        "technique": "Lean 4 per-pixel refinement proof (loop lemmas on the flat canvas, induction over the frame history) + hook-level and file-level correspondence + libwebp AnimDecoder oracle for the specification",
+        "level_text": "Theorems for every canvas size, rectangle, flag combination and pixel content: composite_frame never indexes out of bounds and leaves in every pixel exactly the specification's step (previous rectangle, and only it, restored to the background when disposal was asked; then overwrite or per-pixel blend; alpha-less frames opaque); by induction over the history the k-th read_frame returns the canvas fold and that frame's duration; background read as B,G,R,A; transparent source pixels leave the canvas unchanged. The opaque-source clause is refuted for the code's blend (known finding, shared root cause with C12) and proved for the repaired blend. The model is tied to the code at two levels on every run: composite_frame through its hook (thousands of geometries x all flags) and whole generated files (VP8L, VP8, ALPH+VP8 frames) through read_frame; the specification is cross-checked against libwebp's WebPAnimDecoder.",
+        "level_note": "Trusted: Lean kernel + standard axioms; frame payload decoding is outside this property's model (frame pixels are taken from the crate's own standalone decode: C01/C02/C05); libwebp ignores the ANIM background colour, so that clause rests on the container specification text.",
+        "design_ref": "DESIGN.md section 4, C06",
+        "trusted_base": COMMON_TB + [
+            "modelled, not verified: extended.rs composite_frame (pixel-indexed canvas; every access of the code is a whole RGBA pixel), decoder.rs read_frame from the point where the frame is decoded (geometry checks, clear colour, canvas initialisation, state update, copy-out), ANIM background bytes",
+            "specification: Canvas.canvasPx / frameBuf — per-pixel fold transcribed from the container specification ('Assembling the canvas'); validated against libwebp's WebPAnimDecoder on binary-alpha, transparent-background animations",
+        ],
+        "assumptions": [
+            "frames decode successfully and to the pixels the crate's standalone decoding gives (that is C01/C02/C05)",
+            "known finding KF-C06-opaque-blend: blended opaque pixels lose one code value per channel (root cause KF-C12-opaque); attributed only to cases where the implementation equals the model and the model differs from the specification through the blend function alone",
+        ],
+        "partial": ["opaque clause: C06.opaque_replaces_full refuted for the code's blend (C06.opaque_replaces_false); holds for the repaired blend (C06.opaque_replaces_fixed)"],
+    },
+    "C07": {
+        "technique": "Lean 4 trace refinement (induction over arbitrary call sequences with a state invariant) + exhaustive short call sequences and random long ones against the real decoder",
+        "level_text": "Theorem C07.trace_refines: for every valid animation and EVERY finite sequence over {read_frame, reset_animation, read_image}, the decoder model returns exactly what an abstract player with a single cursor returns (frame under the cursor = canvas fold of C06; reset puts the cursor at 0; read_image returns frame 1 and keeps the cursor; NoMoreFrames at the end until reset). Corollaries: frames after a reset equal a fresh decoder's whatever came before. The model is tied to the real decoder on every run by all call sequences up to length 5/6 on three animations plus random sequences up to length 14 on hundreds more, comparing every return value and buffer and checking NoMoreFrames leaves the buffer untouched.",
+        "level_note": "Trusted: as C06. Error paths of read_frame (corrupt frames inside an otherwise playable animation) are not in this model; they are exercised under C03.",
+        "design_ref": "DESIGN.md section 4, C07",
+        "trusted_base": COMMON_TB + [
+            "modelled, not verified: decoder.rs AnimationState, read_frame (as in C06), reset_animation, the animated branch of read_image (mem::take / restore)",
+            "specification: Canvas.runSpec — a cursor over the frame list",
+        ],
+        "assumptions": ["valid animations whose frames decode (see C06)"],
+    },
 }
